@@ -136,7 +136,7 @@ def oracle(history, steps):
         if pr:
             fails.extend(check_agree(i, pr))
         prev_docs = docs
-        if fails:
+        if any(l not in known_labels for (_, l, _) in fails) or len(fails) > 50:
             break
     return fails
 
